@@ -179,10 +179,16 @@ fn static_array_probe(n: usize) -> Option<Data<'static>> {
 /// Is this an SND operation with a page literal that Page::from_bytes refuses?
 pub fn snd_unconstructible(op: &str) -> bool {
     let p: Vec<&str> = op.splitn(3, '.').collect();
-    p[0] == "SND" && guarded(|| try_pages_of_str(p[2]).is_none()).unwrap_or(true)
+    (p[0] == "SND" || p[0] == "SNP" || p[0] == "SNW") && guarded(|| try_pages_of_str(p[2]).is_none()).unwrap_or(true)
+}
+
+thread_local! {
+    /// The bus the current controller operation runs on, for page iterators that look at it while they are driven.
+    pub static PEEK_BUS: RefCell<Option<Rc<RefCell<dyn SignBus>>>> = RefCell::new(None);
 }
 
 pub fn run_cop(op: &str, bus: Rc<RefCell<dyn SignBus>>) -> Option<Result<String, SignError>> {
+    PEEK_BUS.with(|p| *p.borrow_mut() = Some(bus.clone()));
     let p: Vec<&str> = op.splitn(3, '.').collect();
     let a = Address(num::<u16>(p[1]));
     // The sign type only matters for configure / configure_if_needed.
@@ -223,6 +229,29 @@ pub fn run_cop_on(sign: &Sign, op: &str) -> Option<Result<String, SignError>> {
                     guarded(|| sign.send_pages(it).map(|s| format!(".{}", str_style(s))))
                 }
             }
+        }
+        "SNP" => {
+            // the caller's iterator looks at the shared bus each time a page is taken from it (a progress display
+            // reading a counter off the bus, say): the bus must not be borrowed by the controller at that moment
+            let pages = pages_of_str(p[2]);
+            let bus = PEEK_BUS.with(|b| b.borrow().clone());
+            let it = pages.iter().inspect(move |_| {
+                if let Some(b) = &bus {
+                    let _look = b.borrow();
+                }
+            });
+            guarded(|| sign.send_pages(it).map(|s| format!(".{}", str_style(s))))
+        }
+        "SNW" => {
+            // the caller's iterator renders pages on demand and takes 2.3 s over every page but the first
+            let pages = pages_of_str(p[2]);
+            let it = pages.iter().enumerate().map(|(i, pg)| {
+                if i > 0 {
+                    std::thread::sleep(std::time::Duration::from_millis(2300));
+                }
+                pg
+            });
+            guarded(|| sign.send_pages(it).map(|s| format!(".{}", str_style(s))))
         }
         "SHW" => guarded(|| sign.show_loaded_page().map(|_| String::new())),
         "LNX" => guarded(|| sign.load_next_page().map(|_| String::new())),
@@ -779,6 +808,7 @@ fn eval_case_inner(line: &str) -> String {
                     _ => SIGN_TYPES[(a % 11) as usize],
                 };
                 let sign = signs.entry(a).or_insert_with(|| Sign::new(dynbus.clone(), Address(a), ty));
+                PEEK_BUS.with(|p| *p.borrow_mut() = Some(dynbus.clone()));
                 let r = run_cop_on(sign, op);
                 let b = bus.borrow();
                 let trace: Vec<String> = b.trace[seen..].iter().map(str_msg).collect();
